@@ -76,6 +76,9 @@ def pmcfg(gram, lexicon, dest, dest_enc, **params):
     func_id = 1
     lindef_id = 1
     if 'lex_in_grammar' in params:
+        # lexical rules are added to a copy, not to the caller's grammar
+        gram = dict([(func, dict([(lin, dict(gram[func][lin]))
+                                  for lin in gram[func]])) for func in gram])
         for word in lexicon:
             if any(c in BRACKETS for c in word):
                 sys.stderr.write("brackets seem to not have been replaced, " \
@@ -134,6 +137,9 @@ def rcg(gram, lexicon, dest, dest_enc, **params):
     in LoPar format or as grammar productions if lex_in_grammar is specified.
     """
     if 'lex_in_grammar' in params:
+        # lexical rules are added to a copy, not to the caller's grammar
+        gram = dict([(func, dict([(lin, dict(gram[func][lin]))
+                                  for lin in gram[func]])) for func in gram])
         for word in lexicon:
             if any(c in BRACKETS for c in word):
                 sys.stderr.write("brackets seem to not have been replaced, " \
